@@ -67,6 +67,7 @@ class Scn(c02.Scn):
             oks = sorted(worlds.successful(w.log, inv_id), key=lambda e: e[6][2])
             want = [(e[6][0], e[6][1], e[4], e[6][2]) for e in oks]  # status, owner, acting runner, time of change
             got = sorted(ex.histories[inv_id], key=lambda h: h[3])
+            p.add("lifecycle_paths_seen", tuple(x[0] for x in want))
             sig = None
             if len(got) < len(want):
                 sig = "history-entry-missing"
@@ -106,8 +107,83 @@ class Scn(c02.Scn):
             pass  # set-up helpers (the waiter of the blocking scenario) are not judged
 
 
+class LifeScn(Scn):
+    """Retry and concurrency-control lifecycles (the C05/C06 scenario shapes), history writers as actors."""
+
+    def execute(self, choices: list[int], expect: Any) -> sched.Execution:
+        from vf import tasks
+        from vf.props import c06
+        from vf.worlds import World, runner_ctx
+
+        d = self.desc
+        w = World(d["backend"], 3, app_id="c10l")
+        self.w = w
+        kind = d["queue"]
+        if kind == "retry":
+            w.bind(tasks.scripted, max_retries=2)
+            plan = {"a": ["retry", "ok"]}
+
+            def script(name: str, x: int) -> Any:
+                from pynenc.exceptions import RetryError
+
+                step = plan[name].pop(0) if plan.get(name) else "ok"
+                if step == "retry":
+                    raise RetryError(name)
+                return x
+            tasks.HOOKS["script"] = script
+            w.ids = [str(w.task("scripted", 2)("a", 1).invocation_id)]
+            rounds = 2
+        else:
+            # cc: two same-key invocations, TASK mode, blocked one rerouted; cc-final: blocked one ends CONCURRENCY_CONTROLLED_FINAL
+            w.bind(tasks.keyed, **c06.task_options("TASK", kind == "cc"))
+            t = w.task("keyed", 2)
+            w.ids = [str(t(0, 0).invocation_id), str(t(0, 1).invocation_id)]
+            rounds = 3 if kind == "cc" else 2
+        w.flush()
+        w.setup_len = len(w.log)
+
+        def actor(j: int) -> Any:
+            def f() -> None:
+                ctx = runner_ctx(f"r{j}")
+                app = w.apps[j]
+                for _ in range(rounds):
+                    try:
+                        got = list(app.orchestrator.get_invocations_to_run(1, ctx))
+                    except sched.Abort:
+                        raise
+                    except Exception as e:  # noqa: BLE001 - a raising poll is judged by C06
+                        w.log.append(("poll-error", worlds._tid(), type(e).__name__, f"r{j}"))
+                        got = []
+                    for inv in got:
+                        try:
+                            inv.run(ctx)
+                        except sched.Abort:
+                            raise
+                        except Exception as e:  # noqa: BLE001
+                            w.log.append(("run-error", worlds._tid(), type(e).__name__, f"r{j}"))
+                self.post_actor(j, w, app)
+            return f
+
+        s = sched.Scheduler(choices, expect, max_points=6000)
+        ex = s.run([(f"w{j}", actor(j)) for j in range(2)])
+        ex.world = w
+        w.flush()
+        ex.histories = {i: w.history(i, -1) for i in w.ids}
+        return ex
+
+    def digest(self, ex: sched.Execution) -> Any:
+        w = ex.world
+        recs = tuple(w.record(i, -1) for i in w.ids)
+        oks = tuple((e[2][-4:], e[3], e[4]) for e in sorted(worlds.successful(w.log[w.setup_len:]), key=lambda e: e[6][2]))
+        hs = tuple(tuple((h[0], h[1], h[2]) for h in sorted(ex.histories[i], key=lambda h: h[3])) for i in w.ids)
+        return (recs, oks, hs, ex.outcome)
+
+
+LIFE_KINDS = ("retry", "cc", "cc-final")
+
+
 def build(desc: dict) -> Scn:
-    return Scn(desc)
+    return LifeScn(desc) if desc["queue"] in LIFE_KINDS else Scn(desc)
 
 
 def descs(ctx: Ctx) -> list[dict]:
@@ -118,6 +194,8 @@ def descs(ctx: Ctx) -> list[dict]:
             if ctx.thorough:
                 bound += 1
             out.append(dict(backend=backend, queue=queue, n=2, k=2 if queue == "two" else 1, bound=bound))
+        for queue in LIFE_KINDS:
+            out.append(dict(backend=backend, queue=queue, n=2, k=1, bound=2 if ctx.thorough else 1))
     if getattr(ctx, "only", None):
         out = [d for d in out if ctx.only in e1.desc_key(d)]
     return out
@@ -125,11 +203,15 @@ def descs(ctx: Ctx) -> list[dict]:
 
 def run(ctx: Ctx) -> None:
     e1.explore_all(ctx, MOD, descs(ctx), lambda d: d["bound"])
-    ctx.rule = ("the C02 worlds with the background history writers scheduled as independent threads; all schedules "
+    paths = ctx.sets.get("lifecycle_paths_seen", set())
+    ctx.extra["statuses_seen_in_histories"] = sorted({st for path in paths for st in path})
+    ctx.extra["longest_lifecycle_path"] = list(max(paths, key=len)) if paths else []
+    ctx.rule = ("the C02 worlds plus retry / concurrency-control lifecycles with the background history writers scheduled as independent threads; all schedules "
                 "with at most `bound` deviations (extra.bounds); after the flush the stored history of every invocation "
                 "is compared entry by entry with the monitor's list of successful status changes")
     ctx.assume("the monitor orders changes by the timestamp taken inside the atomic transition")
-    ctx.assume("retry / concurrency-control lifecycles are covered by the C05/C06 scenarios' own history clause")
+    ctx.assume("retry / concurrency-controlled (rerouted and final) lifecycles: two poller+worker actors over one retrying invocation / "
+               "two same-key invocations (the C05/C06 scenario shapes), same oracle")
 
 
 def replay(payload: dict) -> bool:
